@@ -264,9 +264,23 @@ func (c *fnCtx) function() {
 			if oracleAppend(v) != nil {
 				needExtras = append(needExtras, [2]string{"append", "append_"})
 			}
+			if len(v.Lhs) == 1 && len(v.Rhs) == 1 {
+				if sel, ok := v.Lhs[0].(*ast.SelectorExpr); ok && isRecvIdent(sel.X) && c.objs[sel.Sel.Name] != nil {
+					if id, ok := v.Rhs[0].(*ast.Ident); ok && id.Name == "nil" && id.Obj == nil {
+						// it.c = nil on an object field: the nil pointer of that type is an argument
+						needExtras = append(needExtras, [2]string{"objnilval:" + sel.Sel.Name, sel.Sel.Name + "_nilptr"})
+					}
+				}
+			}
 		case *ast.IncDecStmt:
 			if f := rootField(v.X); f != "" {
 				sc.fieldsMut[f] = true
+			}
+		case *ast.RangeStmt:
+			if f, m, call := objIterOperand(v.X, isRecvIdent); call != nil && c.objs[f] != nil {
+				// range over an iterator method of an object field (fn_rest.go)
+				needExtras = append(needExtras, [2]string{"obj:" + f + "." + m, f + "_" + m})
+				sc.fieldsUsed[f], sc.fieldsMut[f] = true, true
 			}
 		case *ast.BinaryExpr:
 			if f := objNilOperand(v, isRecvIdent); f != "" && c.objs[f] != nil {
@@ -835,6 +849,16 @@ func (c *fnCtx) sliceUsage(fd *ast.FuncDecl) map[string]*sliceUse {
 						if cal := c.g.calleeOf(c.fn, call); cal != nil && len(cal.results) == 1 && cal.results[0].k == "sres" {
 							retRooted[i] = 3 // handed through
 							continue
+						}
+						// return pkg.F(vs), F an external func(S) S that may store into vs: the result
+						// is a window of the parameter's array, the parameter is stored into
+						if key := c.externKey(call); key != "" && len(call.Args) == 1 {
+							if p := paramOf(call.Args[0]); p != "" && use[p] != nil {
+								if efd := c.externDeclQuiet(key); efd != nil && externHandsBack(efd) {
+									rooted = true
+									use[p].view, use[p].stored, use[p].elems = true, true, true
+								}
+							}
 						}
 					}
 					k := 2
@@ -1677,6 +1701,16 @@ func (c *fnCtx) viewOf(e ast.Expr, pre *[]fnBind) string {
 		}
 	case *ast.SliceExpr:
 		return c.viewSlice(v, pre)
+	case *ast.CallExpr:
+		// pkg.F(vs), F an external func(S) S that hands back a window of its argument (fn_closure.go)
+		if key := c.externKey(v); key != "" && len(v.Args) == 1 {
+			if efd := c.externDeclQuiet(key); efd != nil && externHandsBack(efd) {
+				vals, ts := c.externCall(key, v, pre)
+				if len(vals) == 1 && ts[0].k == "view" {
+					return vals[0]
+				}
+			}
+		}
 	}
 	c.lostAt(e, "slice value %s (only a parameter or a slice expression on a parameter can be stored or returned)", src(e))
 	return ""
